@@ -153,7 +153,9 @@ func (r *Report) finish(c *Ctx, tier string, start time.Time, evidencePath, find
 		}
 		matched := false
 		for _, f := range findings {
-			if f.Status == "known" && f.Property == r.Prop && f.Rule == o.Rule && f.Construct == o.Construct {
+			// (the thorough tier re-checks the same constructs on the 386 build and says so in front of their name:
+			// the same finding)
+			if f.Status == "known" && f.Property == r.Prop && f.Rule == o.Rule && f.Construct == strings.TrimPrefix(o.Construct, "GOARCH=386: ") {
 				matched = true
 				o.Known = true
 				fmt.Printf("KNOWN-FINDING: property=%s %s %s (%s) %s\n", r.Prop, o.Rule, o.Construct, o.Pos, f.What)
